@@ -9,6 +9,7 @@ mod event;
 mod infra;
 mod mutex;
 mod semaphore;
+mod timer;
 
 use engine::{Runner, Sut};
 use futures_intrusive::sync::{GenericSemaphore, GenericSharedSemaphore};
@@ -43,6 +44,10 @@ fn make_sut(prim: &str, flavour: &str, consts: &Value) -> Option<Box<dyn Sut>> {
         ("event", "local") => Box::new(event::EventSut::<Noop>::new(consts)),
         ("event", "pl") => Box::new(event::EventSut::<Pl>::new(consts)),
         ("event", "vlock") => Box::new(event::EventSut::<VLock>::new(consts)),
+        ("timer", "local") => Box::new(timer::TimerSut::<timer::ViaLocal<Noop>>::new(consts)),
+        ("timer", "pl") => Box::new(timer::TimerSut::<timer::ViaSync<Pl>>::new(consts)),
+        ("timer", "pl-local") => Box::new(timer::TimerSut::<timer::ViaLocal<Pl>>::new(consts)),
+        ("timer", "vlock") => Box::new(timer::TimerSut::<timer::ViaSync<VLock>>::new(consts)),
         _ => return None,
     })
 }
